@@ -79,6 +79,16 @@ def one_instance(ctx, r, big=0, prepared=None, legacy=False, only=None, tail=Non
                                   {"trace": trace + [step]})
                     return
                 o = crash.timeless(g["graph"])
+                if o == pre_o or o == post_o:
+                    # …and it stays that way: the next command that takes the lock (a dry-run prune: it writes nothing) must not "finish" or
+                    # "undo" the interrupted one from what it left lying around (a temporary file, a repaired tail)
+                    c.exec(["--json", "prune"])
+                    g2 = c.graph()
+                    if "err" in g2 or crash.timeless(g2["graph"]) != o:
+                        ctx.violation("C04 the state after a kill in %s is changed by the next command that takes the lock" % label,
+                                      "kill before call %d/%d; a dry-run prune afterwards: %s" % (k, n, g2.get("err", "")[:120] or fndiff.first_difference(o, crash.timeless(g2["graph"]))),
+                                      {"trace": trace + [step, {"argv": ["--json", "prune"], "stdin": None}]})
+                        return
                 if o != pre_o and o != post_o:
                     nxt = strace.summarize(steps)[len(strace.summarize(ran)):][:1]
                     d = fndiff.first_difference(post_o, o)
@@ -106,6 +116,9 @@ def run(ctx):
         one_instance(ctx, r.fork(), legacy=True, only=(("compact",), ("plan",), None)[i % 3])
     for i in range(4 if ctx.quick else 40):
         one_instance(ctx, r.fork(), tail=("unterminated", "torn")[i % 2])
+    # rewrites of a log of several hundred KB: the temporary file is written in many write(2) calls, a kill between two of them leaves half a file behind
+    for i in range(2 if ctx.quick else 12):
+        one_instance(ctx, r.fork(), big=130, only=(("plan",), ("compact",))[i % 2])
     ctx.cov["rule"] = ("for generated CLI-reachable pre-states × multi-event commands (claim, claim <id>, multi-field set, create-with-state/claim, sequence chain, prune --yes, plan, compact): "
                        "SIGKILL injected with strace before every one of the command's system calls on the store's files; observable state (clock readings aside) must equal "
                        "the state before or the state after (twin run with the same scripted RNG); distinct = (command, kill point, events recorded)")
@@ -117,6 +130,9 @@ def replay(ctx, doc):
     try:
         tr = doc["replay"]["trace"]
         from .. import histories
+        after_kill = []
+        while tr and "kill_point" not in tr[-1]:
+            after_kill.insert(0, tr[-1]); tr = tr[:-1]
         for step in tr[:-1]:
             if "argv" not in step:
                 histories.apply_edit(st, step); continue
@@ -128,6 +144,10 @@ def replay(ctx, doc):
         print("killed before call", last["kill_before_call"], "ran:", strace.summarize(ran))
         print("state changed:", crash.timeless(g["graph"]) != before)
         print(json.dumps([(t["id"], t["st"], t["claimed_by"]) for t in g["graph"]["tasks"]]))
+        for step in after_kill:
+            st.exec(step["argv"], None if step.get("stdin") is None else step["stdin"].encode(), env=step.get("env"))
+            g3 = st.graph()
+            print("after", step["argv"], ": state changed again:", "err" in g3 or crash.timeless(g3["graph"]) != crash.timeless(g["graph"]))
         return 0
     finally:
         st.close()
